@@ -1,6 +1,7 @@
 package main
 
 import (
+	"go/constant"
 	"fmt"
 	"go/ast"
 	"go/token"
@@ -158,6 +159,9 @@ type FuncInfo struct {
 	Lit  *ast.FuncLit  // nil for declarations
 	Obj  *types.Func   // nil for literals
 	Name string        // "(*T).m", "T.m", "f", or "outer$lit@line"
+	// Spec is set on a specialised view of a shared implementation (PkgIndex.delegateUnder): the parameters that hold a
+	// compile-time constant at the delegating call, with that constant; the body is pruned accordingly.
+	Spec map[types.Object]constant.Value
 }
 
 func (f *FuncInfo) Body() *ast.BlockStmt {
